@@ -90,6 +90,7 @@ def run(chk, runner_ok):
         chk.correspond("POSITION", pcases, impl, outs)
     entity_positions(chk)
     check_positions(chk)
+    lint_positions(chk)
 
 
 def expected_linecol(s, p):
@@ -114,7 +115,7 @@ def entity_positions(chk):
             else:
                 text = parsing.random_text(fmt, rng)
                 es = parsing.raw_walk(fmt, text)
-                if es is None:
+                if not isinstance(es, list):
                     continue
             for e in es:
                 n_entries += 1
@@ -176,8 +177,15 @@ def check_positions(chk):
             keys = ["a", "b", "c"]
             for _ in range(chk.n(60, 600)):
                 pad = "\n" * rng.randint(0, 3)
-                l10n = pad + "".join(("\n" * rng.randint(0, 2)) + fmtline(k, rng.choice(vals))
-                                     for k in rng.sample(keys, 3))
+                def val():
+                    v = rng.choice(vals)
+                    if rng.random() < 0.3:
+                        j = rng.randint(0, len(v))
+                        v = v[:j] + "\ufffd" + v[j:]
+                    return v
+                cmt = {"x.properties": "# note\n", "x.dtd": "<!-- note -->\n", "x.ftl": "# note\n"}[name]
+                l10n = pad + "".join(("\n" * rng.randint(0, 2)) + (cmt if rng.random() < 0.25 else "")
+                                     + fmtline(k, val()) for k in rng.sample(keys, 3))
                 rp, lp = os.path.join(tmp, "ref_" + name), os.path.join(tmp, name)
                 open(rp, "w").write(reftext)
                 open(lp, "w").write(l10n)
@@ -209,14 +217,83 @@ def check_positions(chk):
                     if e is None:
                         continue
                     start = tuple(e.position())
+                    if text.startswith("\ufffd in: "):
+                        # an encoding warning points at a replacement character of this entity
+                        pre = getattr(e, "pre_comment", None)
+                        a0 = pre.span[0] if pre is not None else e.span[0]
+                        spots = [tuple(expected_linecol(l10n, i)) for i in range(a0, e.span[1])
+                                 if l10n[i] == "\ufffd"]
+                        if (line, col) not in spots:
+                            sig = ("encoding-warning-position-with-pre-comment" if pre is not None
+                                   else "encoding-warning-position")
+                            chk.fail(sig, {"file": name, "l10n": l10n, "message": text},
+                                     {"replacement_characters_at": spots, "reported": [line, col]})
+                        continue
                     if not (start <= (line, col) <= eof) or col < 1 or line < 1:
+                        # DTD results whose checker position has line 0 (whole-value warnings (0, 0),
+                        # XML errors located in the DOCTYPE line of the wrapper document) are
+                        # resolved to the line above the value: the listed finding
+                        vline = e.value_position()[0] if e.val_span else None
                         sig = ("dtd-whole-value-position-line-minus-one"
-                               if name.endswith(".dtd") and col == 0 else "check-position-out-of-bounds")
+                               if name.endswith(".dtd") and vline is not None and line == vline - 1
+                               else "check-position-out-of-bounds")
                         chk.fail(sig, {"file": name, "l10n": l10n, "message": text},
                                  {"entity_start": start, "eof": eof, "reported": [line, col]})
     finally:
         shutil.rmtree(tmp, ignore_errors=True)
     chk.notes.append(f"CHECK-POS: {n_msgs} check messages with positions examined")
+
+
+def lint_positions(chk):
+    """duplicate / changed-ID / junk lint results carry the position of THEIR occurrence"""
+    import os
+    import shutil
+    import tempfile
+    from compare_locales.lint.linter import L10nLinter
+    from compare_locales import parser
+    rng = chk.rng
+    tmp = tempfile.mkdtemp(prefix="verif_c17l_")
+    n = 0
+    line = {"x.properties": lambda k, v: f"{k} = {v}\n", "x.ini": lambda k, v: f"{k}={v}\n",
+            "x.dtd": lambda k, v: f'<!ENTITY {k} "{v}">\n', "x.ftl": lambda k, v: f"{k} = {v}\n"}
+    try:
+        for name, fl in line.items():
+            for _ in range(chk.n(60, 600)):
+                keys = [rng.choice("abc") for _ in range(rng.randint(1, 6))]
+                head = "[Strings]\n" if name.endswith(".ini") else ""
+                text = head + "".join(("\n" * rng.randint(0, 2)) + ("  " if name.endswith(".dtd") and rng.random() < .3 else "")
+                                      + fl(k, "v%d" % i) + ("garbage\n" if rng.random() < .1 else "")
+                                      for i, k in enumerate(keys))
+                ref = head + "".join(fl(k, "r") for k in "ab")
+                pth, rp = os.path.join(tmp, name), os.path.join(tmp, "ref_" + name)
+                open(pth, "w").write(text)
+                open(rp, "w").write(ref)
+                res = list(L10nLinter().lint_file(pth, rp, []))
+                p = parser.getParser(name)
+                p.readUnicode(text)
+                ents = list(p)
+                # expected: for each occurrence of a repeated key, a duplicate error at its position
+                want_dup = sorted(expected_linecol(text, e.span[0]) + [e.key] for e in ents
+                                  if isinstance(e, parser.Entity)
+                                  and sum(1 for x in ents if getattr(x, "key", None) == e.key) > 1)
+                got_dup = sorted([r["lineno"], r["column"], r["message"].split(": ", 1)[1]] for r in res
+                                 if r["message"].startswith("Duplicate string with ID"))
+                want_junk = sorted(expected_linecol(text, e.span[0]) for e in ents if isinstance(e, parser.Junk))
+                got_junk = sorted([r["lineno"], r["column"]] for r in res
+                                  if r["message"].startswith("Unparsed content"))
+                want_chg = sorted(expected_linecol(text, e.span[0]) + [e.key] for e in ents
+                                  if isinstance(e, parser.Entity) and e.key in "ab")
+                got_chg = sorted([r["lineno"], r["column"], r["message"].split(": ", 1)[1]] for r in res
+                                 if r["message"].startswith("Changes to string"))
+                n += len(res)
+                chk.evaluations += 1
+                if (want_dup, want_junk, want_chg) != (got_dup, got_junk, got_chg):
+                    chk.fail("lint-position", {"file": name, "text": text},
+                             {"duplicates": [want_dup, got_dup], "junk": [want_junk, got_junk],
+                              "changed": [want_chg, got_chg]})
+    finally:
+        shutil.rmtree(tmp, ignore_errors=True)
+    chk.notes.append(f"LINT-POS: {n} lint results with positions examined")
 
 
 def replay(chk, path):
